@@ -14,7 +14,7 @@ EXPLANATION = (
     "comment of every function documenting that setter (R3); Difficulty::inspect and InspectDifficulty::"
     "into_difficulty are field-complete copies through same-named fields/setters (R4); the private field written "
     "by setter S is the one get_S reads and inspect() exposes as InspectDifficulty.S, holding clamp(param) or the "
-    "parameter (R5). 'Irrelevant setter leaves the result untouched' beyond the no-op arms is NOT decided.")
+    "parameter (R5); every attribute-builder chain a calculator drives to build()/hit_windows() goes through .difficulty(..) with no setting setter before it — a setter placed before the funnel makes a setting relevant for a mode that documents it as ignored (R6). 'Irrelevant setter leaves the result untouched' beyond the no-op arms is NOT decided.")
 
 DIFF = 'any::difficulty::Difficulty'
 INSPECT = 'any::difficulty::inspect::InspectDifficulty'
@@ -423,5 +423,7 @@ def run(ctx):
     r2(ctx, F)
     r3(ctx, F)
     r4_r5(ctx, F)
+    import funnel
+    funnel.check(ctx, F, 'C18-R6')
     ctx.not_decided('"a setter documented as irrelevant for a mode leaves that mode\'s result untouched" beyond the no-op arms '
                     '(needs a per-mode read-set analysis through the attribute builder)')
